@@ -5,7 +5,7 @@ import subprocess as sp
 from .. import tlc, drive, glue, project
 from ..core import Machinery
 
-STATES = ["clean", " M", "M ", "MM", "A ", "AM", " D", "D ", "R ", "RM", "??", "D?"]       # "D?": removed from the index but kept on disk (git rm --cached): two status lines for one path
+STATES = ["clean", " M", "M ", "MM", "A ", "AM", " D", "D ", "R ", "RM", "??", "D?", " T", "T "]       # " T" / "T ": type change (the file replaced by a symbolic link); "D?": removed from the index but kept on disk (git rm --cached): two status lines for one path
 OLD, NEW = "1.2.3", "1.2.4"
 GENV = dict(GIT_AUTHOR_NAME="t", GIT_AUTHOR_EMAIL="t@e", GIT_COMMITTER_NAME="t", GIT_COMMITTER_EMAIL="t@e", GIT_CONFIG_GLOBAL="/dev/null", GIT_CONFIG_SYSTEM="/dev/null")
 
@@ -62,6 +62,11 @@ def build(job):
                 git(root, "rm", "-q", pre + n)
             elif s == "D?":
                 git(root, "rm", "-q", "--cached", pre + n)
+            elif s in (" T", "T "):
+                os.remove(p)
+                os.symlink("bumpver.toml", p)
+                if s == "T ":
+                    git(root, "add", pre + n)
             elif s in ("R ", "RM"):
                 git(root, "mv", pre + "old_" + n, pre + n)
                 if s == "RM":
